@@ -796,7 +796,7 @@ def r20(ctx):
     for nid, d, rhs, op, lhs in asg:
         if lhs is None or fn.key(lhs) != out or rhs is None:
             continue
-        rk = fn.key(rhs)
+        rk = fn.xkey(rhs)
         if not (rk.endswith('.second') and 'operator->' in rk or '.second' in rk and 'm_conditions' in rk):
             continue
         n += 1
